@@ -144,6 +144,17 @@ def main():
                        "harness raised", None)
         cov = dict(evaluations=0, distinct_nontrivial=0, rule="harness failed", samples=[repr(e)])
 
+    # 3b. workflow probes: the property's predicate on the implementation through the user-facing
+    #     entry points (the glue around the modelled core; harness/workflow_probe.py)
+    probes = None
+    if not args.replay:
+        import workflow_probe
+        try:
+            probes = workflow_probe.run(V, pid, args.tier)
+        except Exception as e:
+            traceback.print_exc()
+            V.disagreement("workflow probes", dict(error=repr(e)), "probes complete", "probe runner raised", None)
+
     coverage = dict(
         obligations=max(ob["obligations"], 1),
         discharged=ob["discharged"],
@@ -159,6 +170,8 @@ def main():
         coverage["translated_source"] = translated
     if hist_calls is not None:
         coverage["history_independence_probe_calls"] = hist_calls
+    if probes is not None:
+        coverage["workflow_probes"] = probes
     if args.tier == "thorough":
         chk = common.coqchk(pid)
         coverage["coqchk"] = chk
